@@ -24,14 +24,22 @@ class Scenario:
         self.name, self.setup, self.threads, self.finals, self.storage = name, setup, threads, finals, storage
 
     events = False
+    removed = ()          # keys removed again during preparation (shapes with nearly empty nodes)
+
+    def initial(self):
+        return {k: v for k, v in self.setup if k not in set(self.removed)}
 
     def text(self, mode_line):
         out = [mode_line]
         if self.events:
             out.append("events")
         out.append("setup create " + hx(self.storage))
+        for nm in getattr(self, "more_storages", ()):
+            out.append("setup create " + hx(nm))
         for k, v in self.setup:
             out.append("setup put %s %s %s 1 0" % (hx(self.storage), hx(k), hx(v)))
+        for k in self.removed:
+            out.append("setup rem %s %s" % (hx(self.storage), hx(k)))
         for t, ops in enumerate(self.threads):
             for o in ops:
                 out.append("thread %d %s" % (t, o))
@@ -59,6 +67,62 @@ def shape_keys(rng, shape):
     if shape == "sublayer-last":
         return [b"prefix88x", b"a"]
     raise ValueError(shape)
+
+
+def gen_collapse(rng, shape="collapse"):
+    """two borders under an interior root, one of them down to its last one or two keys: removing them unlinks the
+    border, collapses the interior node and promotes the sibling to layer root (atomic_set_root on a node that
+    another thread may hold locked) while that sibling is being written"""
+    keys = [bytes([0x30 + 2 * i]) for i in range(20)]
+    st = b"s"
+    setup = [(k, b"i" + k[-1:]) for k in keys]
+    left = rng.random() < 0.6
+    if left:
+        keep = rng.choice([1, 1, 2])
+        removed = keys[keep:rng.choice([7, 8])]
+        victims = keys[:keep]
+        other = keys[10:]
+    else:
+        keep = rng.choice([1, 1, 2])
+        removed = keys[rng.choice([8, 9]):20 - keep]
+        victims = keys[20 - keep:]
+        other = keys[:6]
+    t0 = ["rem %s %s" % (hx(st), hx(k)) for k in victims]
+    t1 = []
+    for j in range(rng.choice([1, 2])):
+        base = rng.choice(other)
+        r = rng.random()
+        if r < 0.5:
+            t1.append("put %s %s %s 1 0" % (hx(st), hx(base + b"n%d" % j), hx(b"t1_%d" % j)))
+        elif r < 0.75:
+            t1.append("put %s %s %s 1 0" % (hx(st), hx(base), hx(b"t1_%d" % j)))
+        else:
+            t1.append("rem %s %s" % (hx(st), hx(base)))
+    threads = [t0, t1]
+    if rng.random() < 0.3:
+        threads.append(["get %s %s" % (hx(st), hx(rng.choice(other)))])
+    sc = Scenario(shape, setup, threads, sorted(set(keys) | {unhex(x.split()[2]) for x in t1}), st)
+    sc.removed = tuple(removed)
+    return sc
+
+
+def gen_storage_race(rng, shape="storages"):
+    """concurrent create/create, delete/delete and create/delete/find on the same names"""
+    existing = [b"t1", b"t12345678", b"t123456789"][:rng.choice([0, 1, 2, 3])]
+    names = existing + [b"n", b"t12345678x", b""][:rng.choice([1, 2])]
+    hot = rng.sample(names, min(len(names), rng.choice([1, 1, 2])))
+    mode = rng.choice(["cc", "dd", "mix", "mix"])
+    threads = []
+    for t in range(rng.choice([2, 2, 3])):
+        ops = []
+        for j in range(rng.choice([1, 2])):
+            nm = rng.choice(hot)
+            kind = {"cc": "create", "dd": "dropst"}.get(mode) or rng.choice(["create", "dropst", "find"])
+            ops.append("%s %s" % (kind, hx(nm)))
+        threads.append(ops)
+    sc = Scenario(shape, [(b"k", b"v")], threads, [b"k"], b"s")
+    sc.more_storages = tuple(existing)
+    return sc
 
 
 SHAPES = ["single", "last", "full", "two", "interior", "sublayer", "sublayer-last", "empty"]
@@ -259,10 +323,23 @@ def check_run(r, scen, want=("lin", "null", "scan", "deadlock", "coherent")):
     ops, pending = parse_history(r)
     if pending:
         bad.append(("incomplete", "operations did not return: %s" % pending))
-    init = {k: v for k, v in scen.setup}
+    init = scen.initial()
+    sinit = {b"\x00storage:" + nm: bytes.fromhex("aa") for nm in [scen.storage] + list(getattr(scen, 'more_storages', ()))}
     perkey = {}
     for o in ops:
         kind, a, res = o["kind"], o["args"], o["result"]
+        if kind in ("create", "dropst", "find"):
+            # storage namespace = a map from names to trees: create = unique insert, delete = remove, find = get
+            k = b"\x00storage:" + unhex(a[0])
+            if kind == "create":
+                perkey.setdefault(k, []).append((o["inv"], o["res"], "uput", "aa", res))
+            elif kind == "dropst":
+                perkey.setdefault(k, []).append((o["inv"], o["res"], "rem", None,
+                                                 "OK" if res == "OK" else "OK_NOT_FOUND" if res in (
+                                                     "WARN_NOT_EXIST", "WARN_CONCURRENT_OPERATIONS") else res))
+            else:
+                perkey.setdefault(k, []).append((o["inv"], o["res"], "get", None, "OK v=aa" if res == "OK" else res))
+            continue
         if kind in ("put", "uput", "get", "rem"):
             k = unhex(a[1])
             arg = None
@@ -349,7 +426,7 @@ def check_run(r, scen, want=("lin", "null", "scan", "deadlock", "coherent")):
     r.lin_jobs = []
     if "lin" in want:
         for k, lst in perkey.items():
-            iv = init.get(k)
+            iv = sinit.get(k) if k.startswith(b"\x00storage:") else init.get(k)
             r.lin_jobs.append((k, iv.hex() if iv is not None else None, lst))
     if "coherent" in want:
         for stn, lb in r.lockbits.items():
@@ -642,6 +719,7 @@ def run_conc_property(res, tag, want, shapes, kinds, scans, budget_quick, budget
 def scenario_from_text(txt):
     """rebuild a Scenario (setup / threads / finals) from a scenario file"""
     setup, threads, finals, st = [], [], [], b"s"
+    removed = []
     for ln in txt.split("\n"):
         t = ln.split()
         if not t:
@@ -650,6 +728,8 @@ def scenario_from_text(txt):
             st = unhex(t[2])
         elif t[0] == "setup" and t[1] == "put":
             setup.append((unhex(t[3]), unhex(t[4])))
+        elif t[0] == "setup" and t[1] == "rem":
+            removed.append(unhex(t[3]))
         elif t[0] == "thread":
             tid = int(t[1])
             while len(threads) <= tid:
@@ -657,7 +737,9 @@ def scenario_from_text(txt):
             threads[tid].append(" ".join(t[2:]))
         elif t[0] == "final":
             finals = [unhex(x) for x in t[2:]]
-    return Scenario("corpus", setup, threads, finals, st)
+    sc = Scenario("corpus", setup, threads, finals, st)
+    sc.removed = tuple(removed)
+    return sc
 
 
 def explore_runs(binary, scen, strategy, workdir, budget, rng, want, jobs=16):
@@ -777,3 +859,101 @@ def lock_graph_check(out):
             if r:
                 return len(edges), r
     return len(edges), None
+
+
+# ------------------------------------------------------------------ version-word trace monitor (C17)
+def vermon_block(out):
+    """the version-word accesses of one run, in the input format of ocaml/ver_main.ml"""
+    lines = ["R"]
+    for ln in out.split("\n"):
+        if not ln.startswith("E "):
+            continue
+        t = ln.split(" ")
+        tid, kind, obj, addr, val, ok = t[2], int(t[3]), int(t[4]), t[5], t[6], int(t[7])
+        if obj != 1:
+            continue
+        if kind == 1:
+            lines.append("S %s %s %s" % (addr, tid, val))
+        elif kind == 2 and ok == 2:
+            lines.append("L %s %s %s" % (addr, tid, val))
+        elif kind == 2 and ok == 1:
+            lines.append("C %s %s %s" % (addr, tid, val))
+        elif kind == 0 and ok == 1:
+            lines.append("O %s %s %s" % (addr, tid, val))
+    return lines
+
+
+def vermon_batch(runs, workdir):
+    """-> list of (run, why) rejected by the extracted monitor VersionDefs.ver_write_ok; and #writes checked"""
+    f = os.path.join(workdir, "vermon.txt")
+    with open(f, "w") as fh:
+        for r in runs:
+            fh.write("\n".join(vermon_block(r.out)) + "\n")
+    rc, out = C.sh([os.path.join(C.BUILD, "ver_main"), f], timeout=900, merge=False)
+    verdicts = [x for x in out.split("\n") if x.startswith(("OK", "BAD"))]
+    if rc != 0 or len(verdicts) != len(runs):
+        return [(runs[0], "monitor failure: rc=%s, %d verdicts for %d runs" % (rc, len(verdicts), len(runs)))] if runs else [], 0
+    bad = [(r, v[4:]) for r, v in zip(runs, verdicts) if v.startswith("BAD")]
+    nw = sum(int(v.split()[1]) for v in verdicts if v.startswith("OK"))
+    return bad, nw
+
+
+def conc_phase(res, tag, want, shapes, kinds, scans, budget, strategies, n_scen, gen=None, vermon=False, label="concurrent_phase",
+               nthreads=(2, 2, 3), ops=(1, 2)):
+    """explore scenarios under the scheduler and record violations in res (no finish): used by properties whose
+    main tie is sequential but whose statement has a concurrent clause"""
+    ok, o = C.build_cpp("conc_driver_" + tag, "harness/conc_driver.cpp")
+    if not ok:
+        res.violation("conc_driver does not compile against /repo", dict(kind="build-failure", log=o[-3000:]), nofail=True)
+        return
+    need = ["lin_main"] + (["ver_main"] if vermon else [])
+    for d in need:
+        okm, om = C.build_model(d)
+        if not okm:
+            res.violation("model driver does not build", dict(kind="model-build-failure", log=om[-3000:]), nofail=True)
+            return
+    binary = os.path.join(C.BUILD, "conc_driver_" + tag)
+    wd = os.path.join(C.BUILD, "run_" + tag)
+    os.makedirs(wd, exist_ok=True)
+    rng = random.Random(res.seed + 17)
+    total_runs = total_steps = distinct = nwrites = 0
+    viol = []
+    old_events = Scenario.events
+    Scenario.events = bool(vermon) or old_events
+    try:
+        cdir = os.path.join(C.VERIF, "corpus", res.pid)
+        scens = []
+        if os.path.isdir(cdir):
+            for f in sorted(os.listdir(cdir)):
+                if f.endswith(".scen"):
+                    txt = open(os.path.join(cdir, f)).read()
+                    scens.append((scenario_from_text(txt), [txt.split()[1]] if txt.startswith("explore") else list(strategies)))
+        for shape in shapes:
+            for j in range(n_scen):
+                sc = gen(rng, shape) if gen else gen_scenario(rng, shape, kinds=kinds, scans=scans,
+                                                              nthreads=rng.choice(nthreads), ops_per_thread=rng.choice(ops))
+                scens.append((sc, list(strategies)))
+        for sc, strats in scens:
+            for strat in strats:
+                n, v, steps, dist, runs = explore_runs(binary, sc, strat, wd, budget, rng, want)
+                total_runs += n
+                total_steps += steps
+                distinct += dist
+                viol += v
+                if vermon:
+                    bad, nw = vermon_batch([r for r in runs if r.rc == 0], wd)
+                    nwrites += nw
+                    for r, why in bad:
+                        viol.append(("vermon", why, r.text, r.schedule))
+    finally:
+        Scenario.events = old_events
+    res.cov[label] = dict(runs=total_runs, distinct_schedules=distinct, scheduler_steps=total_steps, oracles=list(want) +
+                          (["version-word monitor (extracted ver_write_ok)"] if vermon else []),
+                          version_word_writes_checked=nwrites, shapes=list(shapes), strategies=list(strategies))
+    res.cov["programs"] = res.cov.get("programs", 0) + total_runs
+    res.cov["traces_validated_against_impl"] = res.cov.get("traces_validated_against_impl", 0) + (total_runs if vermon else 0)
+    if viol:
+        orc, desc, text, sched = viol[0]
+        res.violation("%s: %s" % (orc, desc[:300]),
+                      dict(kind="conc-" + orc, scenario=replay_text(text, sched), original_mode=text.split("\n")[0],
+                           description=desc[:2000], all=sorted({v[0] for v in viol})))
